@@ -142,7 +142,8 @@ def generate(contract: FunctionContract, *, max_paths: int = 20000, scenarios: O
                 if call.self_obj is not None:
                     v = interp.call_function(fi, [call.self_obj] + list(call.args), call.kwargs, self_obj=call.self_obj)
                 else:
-                    v = interp.call_function(fi, list(call.args), call.kwargs)
+                    # a nested function under contract sees the free variables its contract binds in an enclosing frame
+                    v = interp.call_function(fi, list(call.args), call.kwargs, closure_frame=(call.entry or {}).get('closure_frame'))
                 out = Outcome('return', value=v)
             except PyRaise as pr:
                 out = Outcome('raise', exc=pr.exc)
